@@ -543,7 +543,7 @@ def as_completed(
         # Reserve some workers from the preferred workers first.
         if candidates := list(preferred - running or acquired - running):
           # Reserve same amount of workers as the number of unproven workers.
-          num_reserved_workers = len(running - preferred)
+          num_reserved_workers = min(len(running - preferred), len(candidates))
           reserved.update(random.sample(candidates, k=num_reserved_workers))
         unused_workers = acquired - running - reserved
         worker_pool.release_all(unused_workers)
